@@ -273,6 +273,15 @@ class SuperRef(V):
 
 
 @dataclass(eq=False)
+class PartialV(V):
+    """functools.partial(fn, *args, **kwargs)."""
+
+    fn: V
+    args: list
+    kwargs: dict
+
+
+@dataclass(eq=False)
 class DictV(V):
     """A dictionary: not modelled, but what is read from it carries the taint of what was stored into it."""
 
@@ -396,6 +405,11 @@ def taint_of(v: V) -> frozenset:
         return taint_of(v.fn) | taint_of(v.src)
     if isinstance(v, DictV):
         return v.taint
+    if isinstance(v, PartialV):
+        out = taint_of(v.fn)
+        for a in [*v.args, *v.kwargs.values()]:
+            out |= taint_of(a)
+        return out
     if isinstance(v, EnumV):
         return taint_of(v.src)
     if isinstance(v, Fn) and v.selfv is not None and not isinstance(v.selfv, Obj):
@@ -571,11 +585,10 @@ class Interp:
         res = self._merge_returns(fr)
         return self._refine_by_annotation(res, fi.node.returns)
 
-    @staticmethod
-    def _taints(args: list, kwargs: dict) -> frozenset:
+    def _taints(self, args: list, kwargs: dict) -> frozenset:
         out: frozenset = frozenset()
         for v in [*args, *kwargs.values()]:
-            out |= taint_of(v)
+            out |= self.value_taint(v)
         return out
 
     @staticmethod
@@ -1276,6 +1289,32 @@ class Interp:
                     alts.append(conj([p.guard, self.free("EQ[" + ",".join(sorted([k, key(it)])) + "]", taint_of(v) | taint_of(it))]))
         return disj(alts)
 
+    def nonempty(self, c: Coll) -> Formula:
+        """Condition under which the collection has an element (existential closure of its parts)."""
+        alts = []
+        for p in c.parts:
+            if p.kind == "base":
+                alts.append(conj([p.guard, self.free(f"NONEMPTY[{p.base.split(':', 1)[1]}]", frozenset(p.items) & {"FLAG", "EXT"})]))
+            elif p.kind == "lit":
+                alts.append(p.guard)
+            elif p.kind == "filter":
+                g = p.guard
+                if p.loop is None or not (p.loop.active and any(l is p.loop for l in self.loops)):
+                    g = self.exists(g, p.sym)  # some element of the source passes the filter
+                alts.append(g)
+            else:  # adds
+                g = p.guard
+                if p.what == "parents":
+                    # there is an ancestor (a top-level name has none) for which the part's condition holds
+                    var = "anc:" + p.sym
+                    if not any(mentions(a, var) for a in atoms_of(g)):
+                        g = conj([g, atom(f"ANC[{var}]")])
+                    g = self.exists(g, var)
+                if p.loop is None or not (p.loop.active and any(l is p.loop for l in self.loops)):
+                    g = self.exists(g, p.sym)
+                alts.append(g)
+        return disj(alts)
+
     def set_algebra(self, fr: Frame, a: V, b: V, op: ast.AST, node: ast.AST) -> V:
         ca, cb = self.as_coll(a), self.as_coll(b)
         if isinstance(op, (ast.Add, ast.BitOr)):
@@ -1309,7 +1348,7 @@ class Interp:
         if isinstance(v, Coll):
             if not v.parts:
                 return FALSE
-            return self.free(f"NONEMPTY[{v.label or key(v)}]")
+            return self.nonempty(v)
         if isinstance(v, TupleV):
             return TRUE if v.items else FALSE
         if isinstance(v, Opaque) and "EXT" in v.taint:
@@ -1751,6 +1790,8 @@ class Interp:
             if f.name == "super" and not args and fr.selfv is not None and fr.fi.cls is not None:
                 return SuperRef(fr.selfv, fr.fi.cls)
             return self.call_builtin(fr, f.name, args, kwargs, e)
+        if isinstance(f, PartialV):
+            return self.call_value(fr, f.fn, [*f.args, *args], {**f.kwargs, **kwargs}, e)
         if isinstance(f, BoundAPI):
             if isinstance(f.recv, AltV):
                 return self.distribute(f.recv, lambda x: self.call_method(fr, x, f.attr, args, kwargs, e))
@@ -1872,6 +1913,12 @@ class Interp:
             return Unknown(f"str({key(a)})", t, False)
         if name in ("print", "logging.debug", "logging.info", "warnings.warn"):
             return NoneV()
+        if name in ("functools.partial", "partial") and args:
+            return PartialV(args[0], args[1:], dict(kwargs))
+        if name == "next" and len(args) == 2:
+            # next(iterable, default): the default exactly when the iterable is empty
+            ne = self.nonempty(self.as_coll(args[0]))
+            return self.mk_alt([(ne, Unknown(f"next({key(args[0])})", self.value_taint(args[0]), False)), (f_not(ne), args[1])])
         if name == "map" and len(args) == 2:
             return MapV(args[0], args[1])
         if name == "enumerate" and args:
